@@ -16,7 +16,7 @@ def check(tier, seed):
     viol = 0
     # stack grid: every size in a window, for recursion depths that straddle the limit
     stack_sizes = list(range(40, 40 + (24 if tier == "quick" else 64))) + [200, 1000]
-    mem_sizes = [120, 200, 260, 300, 340, 400, 600, 1000, 5000] if tier == "quick" else list(range(100, 420, 10)) + [600, 1000, 5000, 20000]
+    mem_sizes = [1, 2, 3, 17, 120, 200, 260, 300, 340, 400, 600, 1000, 5000] if tier == "quick" else [1, 2, 3, 4, 5, 8, 17, 33] + list(range(100, 420, 10)) + [600, 1000, 5000, 20000]
     jobs = []
     for (name, src, meta) in fam:
         if meta.get("leaf"):
